@@ -233,6 +233,65 @@ H("count_restarts_per_installation", variant="x64-linux", modules=["rt", "count"
   bounds="one installation from an arbitrary leftover counter state (inductive over lifetimes), N <= 2 calls; unwind 26",
   assumptions=API_ASSUME)
 
+# ---------------------------------------------------------------------------------------------
+# family D: gates that run before anything is modified (C09, C10 gate, C05 d)
+# ---------------------------------------------------------------------------------------------
+GATE_FUNCS = ["WhenCalledBuilder::will_execute_raw", "WhenCalledBuilderAsync::will_return_async", "WhenCalledBuilder::will_return_boolean",
+              "injector::signature_returns_bool (if present)", "FuncPtr::new", "InjectorPP::when_called", "InjectorPP::when_called_async", "str::eq / str::trim"]
+MISMATCH = (r"will_execute_raw|will_return_async|will_return_boolean", r"Signature mismatch|signature|placeholder message")
+for n, unw in ((6, 26), (12, 26)):
+    H("sig_gate_differs_%d" % n, variant="x64-linux", modules=["rt", "gates"],
+      expected=[MISMATCH], must_reach=[0], functions=GATE_FUNCS + X64_CORE_FUNCS,
+      symbolic="two arbitrary ASCII strings of length <= %d as the recorded signatures of target and replacement, constrained to differ; addresses symbolic" % n,
+      bounds="signature strings up to %d bytes (memcmp unwinding %d)" % (n, unw), assumptions=API_ASSUME)
+    H("sig_gate_equal_%d" % n, variant="x64-linux", modules=["rt", "gates"],
+      covers=["COVER: signatures of maximal length", "COVER: both signatures empty (unchecked with unchecked)"],
+      forbidden=[(MISMATCH[0], MISMATCH[1], ["C09"], "a replacement whose signature is written identically to the target's is refused")],
+      functions=GATE_FUNCS + X64_CORE_FUNCS,
+      symbolic="two equal arbitrary ASCII strings of length <= %d" % n,
+      bounds="signature strings up to %d bytes" % n, assumptions=API_ASSUME)
+H("sig_gate_async_differs_6", variant="x64-linux", modules=["rt", "gates"],
+  expected=[MISMATCH], must_reach=[0], functions=GATE_FUNCS,
+  symbolic="two differing ASCII strings <= 6 bytes as recorded output signatures of an async target and its replacement",
+  bounds="signature strings up to 6 bytes", assumptions=API_ASSUME)
+H("null_pointer_refused", variant="x64-linux", modules=["rt", "gates"],
+  expected=[(r"expect_failed|FuncPtr", r".")], must_reach=[0], functions=["FuncPtr::new"],
+  symbolic="null pointer", bounds="none")
+for n in (16, 20, 22):
+    H("bool_gate_refuses_%d" % n, variant="x64-linux", modules=["rt", "gates"],
+      expected=[MISMATCH], must_reach=[0], functions=GATE_FUNCS,
+      symbolic="every printable-ASCII signature string of length <= %d that an independent parser reads as `<prefix>fn(<balanced>)[ -> <ret>]` with a top-level return type other than bool (includes return types that merely END in `-> bool`)" % n,
+      bounds="signature strings up to %d bytes; unwind 26" % n, assumptions=API_ASSUME, mem_gb=24)
+for n in (16, 22):
+    H("bool_gate_accepts_%d" % n, variant="x64-linux", modules=["rt", "gates"],
+      covers=["COVER: signature of maximal length"],
+      forbidden=[(MISMATCH[0], MISMATCH[1], ["C10"], "a function whose return type is exactly bool is refused by will_return_boolean")],
+      functions=GATE_FUNCS + X64_CORE_FUNCS,
+      symbolic="every printable-ASCII signature string of length <= %d whose top-level return type is exactly bool" % n,
+      bounds="signature strings up to %d bytes; unwind 26" % n, assumptions=API_ASSUME, mem_gb=24)
+
+# ---------------------------------------------------------------------------------------------
+# family H: panics while fakes are installed (C05, C04)
+# ---------------------------------------------------------------------------------------------
+PANIC_FUNCS = API_FUNCS + ["WhenCalledBuilder::will_execute", "CallCountVerifier::drop", "fake! expansion (fn() -> bool, returns, times)",
+                           "MutexGuard::drop (poisoning)", "NoPoisonMutex::lock (poisoned branch)"] + X64_CORE_FUNCS
+PANIC_ASSUME = API_ASSUME + ["unwinding is modelled as leaving the scope early with std::thread::panicking() == true (stubbed by a symbolic flag that std's own callers also see); that rustc's unwinder runs the same drop glue as an early return is language semantics and is trusted"]
+DOUBLE = (r"CallCountVerifier", r".", ["C05"], "call-count verification panics during unwinding / with a satisfied expectation: a second panic aborts the process")
+for pos, name in ((0, "panic_at_p0"), (1, "panic_at_p1"), (2, "panic_at_p2"), (3, "panic_at_p3"), (4, "panic_at_p4"), (5, "normal_exit_p5")):
+    H(name, variant="x64-linux", modules=["rt", "x64dec", "x64_panic"],
+      covers=["COVER: scope exit reached"] + (["COVER: exit with an unsatisfied call-count expectation pending"] if pos in (2, 3, 4) else []),
+      forbidden=[DOUBLE], functions=PANIC_FUNCS,
+      symbolic="script new; install A (redirect); install B (fake! with times: N via will_execute); k calls; exit.  Panic injected at position %d (5 = none); N in {0,1}, k in {0,1,2}; all addresses and bytes symbolic" % pos,
+      bounds="crash position %d of 0..5; two functions; N <= 1, k <= 2; then a second injector and a preventer are created; unwind 26" % pos,
+      assumptions=PANIC_ASSUME)
+H("after_panic_usable", variant="x64-linux", modules=["rt", "x64dec", "x64_panic"],
+  covers=["COVER: the mutex is poisoned after the unwinding exit"], functions=PANIC_FUNCS,
+  symbolic="first guard kind (injector / preventer) released while panicking; then a full install / interpret / drop cycle",
+  bounds="two consecutive lifetimes; unwind 26", assumptions=PANIC_ASSUME)
+H("mprotect_failure_leaves_target_untouched", variant="x64-linux", modules=["rt", "x64dec", "x64_panic"],
+  expected=[(r"make_memory_writable_and_executable", r"mprotect failed")], must_reach=[0], functions=PANIC_FUNCS,
+  symbolic="mprotect fails or succeeds nondeterministically", bounds="one installation", assumptions=PANIC_ASSUME)
+
 NOT_APPLICABLE = {}
 
 PROPERTIES = {
@@ -274,6 +333,22 @@ PROPERTIES = {
         thorough=["x64_core_redirect", "x64_core_boolean", "arm_core_a32", "arm_core_t32_aligned", "arm_core_t32_misaligned", "a64_core_redirect"],
         outside=["execution inside the fake", "vector registers as values (they are shown untouched by the instruction table, not tracked)"],
     ),
+    "C04": dict(
+        level_text="Thread interleavings of std::sync::Mutex cannot be encoded (Kani has no concurrency; the futex path is FFI). What the solver decides on the real code is the lock discipline from which exclusion follows: (G1) from the return of InjectorPP::new()/prevent() until the value is dropped the process-wide lock is held, on every path through a symbolic history; (G2) every simulated code write, including every restoring write during drop, happens while the lock is held (the lock is released strictly after the last restore); (G3) after drop - normal, or while panicking with the mutex left poisoned - the lock is free and both new() and prevent() succeed again.",
+        level_note="Trusted: std::sync::Mutex gives mutual exclusion and wakes a waiter on unlock. With G1-G3 this yields 'at most one holder', 'a preventer's holder sees only original code' (no write can happen without the lock) and hand-over. Schedules themselves are NOT explored: a change that replaces, skips, re-orders or shortens the locking is detected; a data race inside a hand-written lock would not be.",
+        quick=["x64_api_hist_l1", "arm_api_same2", "after_panic_usable", "panic_at_p2"],
+        thorough=["x64_api_hist_l1", "x64_api_hist_l2", "x64_api_hist_l1x2", "arm_api_same2", "arm_api_same3", "after_panic_usable", "panic_at_p0", "panic_at_p2", "panic_at_p4", "normal_exit_p5"],
+        outside=["thread schedules (trusted: std Mutex)", "fairness / liveness of hand-over beyond 'the lock is free and can be taken'"],
+    ),
+    "C05": dict(
+        level_text="Unwinding modelled as early scope exit with panicking()==true (the stub also reaches std, so the mutex really becomes poisoned). For each crash position of a scripted body (after creation, after each installation, after the calls, normal exit) with a call-count expectation pending (N in {0,1}, k calls): no panic site is reachable inside any destructor (CallCountVerifier::drop for ALL (count, expected) when panicking - a second panic would abort), every function is restored, no trampoline stays mapped, the lock is free; the next InjectorPP::new() takes the poisoned branch (witnessed) and a full install/call/drop cycle and a preventer work. Library panics during installation (signature mismatch, null pointer, non-bool target, allocation exhaustion, mprotect failure) are reached with no code write, no mprotect and no live mapping before them.",
+        level_note="Trusted: rustc's unwinder runs the same drop glue as an early return. Outside: mprotect failing during restoration (a page that could be made writable once is assumed to be again), panics inside extern \"C\" fakes (excluded by the property), the intermediate state 'verifier stored, guard not yet' after a refused will_execute is covered compositionally by verifier_quiet (silent for every count when panicking).",
+        quick=["panic_at_p2", "panic_at_p4", "after_panic_usable", "verifier_quiet", "sig_gate_differs_6", "null_pointer_refused", "mprotect_failure_leaves_target_untouched"],
+        thorough=["panic_at_p0", "panic_at_p1", "panic_at_p2", "panic_at_p3", "panic_at_p4", "normal_exit_p5", "after_panic_usable", "verifier_quiet",
+                  "sig_gate_differs_6", "sig_gate_async_differs_6", "null_pointer_refused", "bool_gate_refuses_16", "mprotect_failure_leaves_target_untouched", "x64_alloc_layout_16m"],
+        timeout_min={"quick": 25, "thorough": 120},
+        outside=["real stack unwinding", "panics in destructors of user values", "mprotect failure during restoration"],
+    ),
     "C06": dict(
         level_text="Inductive step instead of call histories: for EVERY arm of fake! that has `times` (arms are read from the current macros.rs), one call from an arbitrary counter state c with an arbitrary budget N (all usize values): condition false -> the call does not return, has no side effect, and the condition was evaluated while the counter still read c; condition true and c >= N -> does not return, no side effect; condition true and c < N -> returns and the counter is exactly c+1. Scope exit: CallCountVerifier::drop panics iff not already unwinding and count != N, for all pairs. By induction over calls this is 'exactly N admitted' with no bound on N or k.",
         level_note="Concurrency clause: the solver cannot tell fetch_add from load+store sequentially; a separate premise (not a solver step) inspects the nightly MIR of every generated fake body and requires exactly one access to FAKE_COUNTER, an atomic fetch_add. Whether a rejected call that panics afterwards bumped the counter is unobservable without unwinding. The panic message text ('naming both numbers') is a native premise.",
@@ -297,11 +372,20 @@ PROPERTIES = {
         premises=["premise_c08_compile"],
         outside=["argument/return types other than the template's", "more than one call step per arm (the step is inductive)"],
     ),
+    "C09": dict(
+        level_text="The gate is decided to be EXACT string equality for all pairs of recorded signatures up to the bound: for every two differing ASCII strings (length <= 6 quick / 12 thorough) the type-checked installation calls (will_execute_raw, will_return_async) do not return and the simulated machine sees no write, no mprotect and no mmap before the panic; for every two equal strings the installation completes. This rules out prefix / suffix / return-type-only weakenings of the comparison. Null pointers are refused by FuncPtr::new. Typed/unchecked mixes are the instances with one empty string.",
+        level_note="The link from TYPES to STRINGS (std::any::type_name spelling differs for structurally different fn-pointer types) is a compiler fact, checked as a separate native premise over a generated family of types through every macro form; pairs differing only in lifetimes are reported, not judged.",
+        quick=["sig_gate_differs_6", "sig_gate_equal_6", "sig_gate_async_differs_6", "null_pointer_refused"],
+        thorough=["sig_gate_differs_6", "sig_gate_equal_6", "sig_gate_differs_12", "sig_gate_equal_12", "sig_gate_async_differs_6", "null_pointer_refused"],
+        premises=["premise_type_names_distinct"],
+        outside=["signature strings longer than 12 bytes (the comparison is a byte-wise equality; no length-dependent branch exists in the checked code)"],
+    ),
     "C10": dict(
-        level_text="Stub half: the boolean trampoline is interpreted from a fully symbolic register file / stack pointer / return address (x86-64: `mov rax,imm32; ret`; AArch64: `movz w0,#v; ret`): the solver decides that the low byte of the result register equals the value, control returns to the caller's return address, the stack pointer is as after a normal return, no memory is written and no other register changes, for every placement. Gate half: see C10 gate harnesses (added with the signature-gate family).",
+        level_text="Stub half: the boolean trampoline is interpreted from a fully symbolic register file / stack pointer / return address (x86-64: `mov rax,imm32; ret`; AArch64: `movz w0,#v; ret`): the solver decides that the low byte of the result register equals the value, control returns to the caller's return address, the stack pointer is as after a normal return, no memory is written and no other register changes, for every placement. Gate half: for EVERY printable-ASCII signature string up to 16 (quick) / 22 (thorough) bytes that an independent parser reads as a fn-pointer type name, will_return_boolean is refused (nothing touched) when the top-level return type is not bool - including return types that merely end in `-> bool` - and accepted when it is exactly bool.",
         level_note="32-bit ARM implements the forced boolean as an ordinary redirect to one of two one-line functions: only the redirect is checked there (C16).",
-        quick=["x64_core_boolean", "a64_core_boolean"],
-        thorough=["x64_core_boolean", "a64_core_boolean"],
+        quick=["x64_core_boolean", "a64_core_boolean", "bool_gate_refuses_16", "bool_gate_accepts_16"],
+        thorough=["x64_core_boolean", "a64_core_boolean", "bool_gate_refuses_16", "bool_gate_accepts_16", "bool_gate_refuses_20", "bool_gate_refuses_22", "bool_gate_accepts_22"],
+        timeout_min={"quick": 30, "thorough": 240},
         outside=["32-bit ARM boolean flavour beyond the redirect being well-formed"],
     ),
     "C11": dict(
@@ -454,6 +538,23 @@ def premise_counter_is_single_rmw(work, tier):
                 a["index"], a["line"], len(refs), len(calls), [re.sub(r'.*(Atomic::<usize>::\w+).*', r'\1', c) for c in calls]))
     return {"name": "counter_is_single_rmw", "ok": not bad, "evaluations": len(al), "distinct": good, "violations": bad,
             "detail": "%d `times` arms: %d with exactly one atomic fetch_add on the counter" % (len(al), good), "samples": samples}
+
+
+def premise_type_names_distinct(work, tier):
+    """C09 native premise: structurally different fn-pointer types are refused, identical ones accepted,
+    through the real macros and the real installation (x86-64 host)."""
+    import native
+    try:
+        binp = native.build(work, "type_names")
+    except Exception as e:
+        return {"name": "type_names_distinct", "ok": None, "detail": "build failed: %s" % (str(e)[-400:],)}
+    p = subprocess.run([binp], stdout=subprocess.PIPE, stderr=subprocess.STDOUT, text=True, timeout=120)
+    fails = [l for l in p.stdout.splitlines() if l.startswith("FAIL")]
+    m = re.search(r'SUMMARY pairs=(\d+) failures=(\d+) types=(\d+)', p.stdout)
+    if not m:
+        return {"name": "type_names_distinct", "ok": None, "detail": "no summary: " + p.stdout[-300:]}
+    return {"name": "type_names_distinct", "ok": not fails, "evaluations": int(m.group(1)), "distinct": int(m.group(1)) - len(fails),
+            "violations": fails, "detail": m.group(0), "samples": ["ordered pairs over %s fn-pointer types through func!; closure!/fake!/simplified forms; unchecked vs typed" % m.group(3)]}
 
 
 def premise_verifier_message(work, tier):
